@@ -494,20 +494,28 @@ class SymInt:
         self._sh = None          # (original term, shift count) when this value is `orig >> count`
 
     # arithmetic
+    def _real(s):
+        return SymReal(z3.ToReal(s.t))
+
     def __add__(s, o):
         if type(o) is SymReal: return NotImplemented
+        if type(o) is float: return s._real() + o
         return SymInt(s.t + T(o))
     __radd__ = __add__
     def __sub__(s, o):
         if type(o) is SymReal: return NotImplemented
+        if type(o) is float: return s._real() - o
         return SymInt(s.t - T(o))
-    def __rsub__(s, o): return SymInt(T(o) - s.t)
+    def __rsub__(s, o):
+        if type(o) is float: return o - s._real()
+        return SymInt(T(o) - s.t)
     def __neg__(s): return SymInt(-s.t)
     def __pos__(s): return s
     def __abs__(s): return SymInt(z3.If(s.t >= 0, s.t, -s.t))
 
     def __mul__(s, o):
         if type(o) is SymReal: return NotImplemented
+        if type(o) is float: return s._real() * o
         if type(o) in (SymInt, SymBool):
             ot = T(o)
             if z3.is_int_value(z3.simplify(ot)) or z3.is_int_value(z3.simplify(s.t)):
